@@ -28,11 +28,13 @@ using Other = int; static Other mko(long id) { return int(id); }
 constexpr bool TRIVIAL = false;
 #elif H_T == 3
 // trivially destructible and trivially copyable, but NOT trivially default constructible: a value-initialised element has id 0, raw (poisoned) storage does not
-struct Cell { int v = 1; Cell() = default; Cell(int x) : v{x} {}  /* NOLINT */ friend bool operator==(Cell const& a, Cell const& b) { return a.v == b.v; } friend bool operator!=(Cell const& a, Cell const& b) { return a.v != b.v; } };
+struct Cell { int v = 1; int w;  /* no initialiser: 0 after value-initialisation, whatever the (poisoned) storage held after default-initialisation */ Cell() = default; Cell(int x) : v{x}, w{0} {}  /* NOLINT */ friend bool operator==(Cell const& a, Cell const& b) { return a.v == b.v; } friend bool operator!=(Cell const& a, Cell const& b) { return a.v != b.v; } };
 using Elem = Cell; static Elem mk(long id) { return Cell(int(id) + 1); } static long id_of(Elem const& e) { return long(e.v) - 1; }
 using Other = int; static Other mko(long id) { return int(id) + 1; }
 constexpr bool TRIVIAL = false;
 static_assert(std::is_trivially_destructible_v<Cell> && !std::is_trivially_default_constructible_v<Cell>);
+#define HIST_VALUE_INIT_OBSERVABLE 1
+static bool value_initialised(Cell const& c) { return c.v == 1 && c.w == 0; }
 #else
 using Elem = std::string; static Elem mk(long id) { return std::string(20, 'v') + std::to_string(id); } static long id_of(Elem const& e) { return e.empty() ? 0 : std::atol(e.c_str() + 20); }
 using Other = char const*; static std::vector<std::string>& opool() { static std::vector<std::string> p; return p; } static Other mko(long id) { opool().push_back(std::string(20, 'v') + std::to_string(id)); return opool().back().c_str(); }
@@ -201,6 +203,9 @@ template<int DD> void history_t(Case& c) {
 				else if(!fill && TRIVIAL && !same && nm.n() > 0) {  // new elements of a trivially default-constructible type are unspecified — and must not have been written (C08)
 					Elem const* p = A.a->data_elements(); bool wrote = false; for(L k = 0; k < nm.n(); ++k) if(isnew[std::size_t(k)]) { if(L(tuple_to_vec(A.a->sizes()) == e) && !is_poison(p[k])) wrote = true; nm.ids[std::size_t(k)] = id_of(p[k]); } count("poison_checks");
 					if(wrote) V("C08:reextent(x):wrote-trivial-elements", "reextent without a fill value wrote to new elements of a trivially default-constructible type"); }
+#ifdef HIST_VALUE_INIT_OBSERVABLE  // C06: without a fill value the new elements are VALUE-initialised (a member without initialiser reads 0, not the poison of the fresh block)
+				if(!fill && !same && nm.n() > 0 && tuple_to_vec(A.a->sizes()) == e) { Elem const* p = A.a->data_elements(); for(L k = 0; k < nm.n(); ++k) if((rv || isnew[std::size_t(k)]) && !value_initialised(p[k])) { V("C06:" + opk + ":new-element-not-value-initialised", "a new element after reextent without a fill value is default-initialised (its member without initialiser holds the bytes of the fresh block), not value-initialised"); break; } count("value-initialisation-checks"); }
+#endif
 				A.m = nm; A.m.base = nb; A.m.base_known = (nm.n() > 0); break; } break;
 			case 15: if constexpr(DD >= 1) { if(!A.a) break; c06 = true; bool il = g.chance(1, 2); opk = il ? "assign={}" : "clear"; d << opk << "(" << a << ")"; cur_op = d.str(); op(opk); softcfg().opk = opk; if(il) *A.a = {}; else A.a->clear(); A.m = empty_model(); if(D == 0) { A.m.unspec = true; A.m.ids = {0}; } break; } break;
 			case 16: { if(!A.a || D == 0 || A.m.n() == 0) break; c06 = true; std::vector<L> ne = A.m.ext; std::size_t i = std::size_t(g.below(D)), j = std::size_t(g.below(D)); std::swap(ne[i], ne[j]); if(D >= 2 && g.chance(1, 2)) { L nn = A.m.n(); ne.assign(std::size_t(D), 1); ne[std::size_t(g.below(D))] = nn; }
@@ -226,9 +231,10 @@ template<int DD> void history_t(Case& c) {
 				else if constexpr(DD == 3) { if(g.chance(1, 2)) { *A.a = {{{mk(i0), mk(i0 + 1)}}, {{mk(i0 + 2), mk(i0 + 3)}}}; A.m.ext = {2, 1, 2}; } else { *A.a = {{{mk(i0)}, {mk(i0 + 1)}}, {{mk(i0 + 2)}, {mk(i0 + 3)}}}; A.m.ext = {2, 2, 1}; } A.m.ids = {i0, i0 + 1, i0 + 2, i0 + 3}; }
 				A.m.unspec = false; A.m.base_known = false; break; }
 			case 22: { if(D == 0 || D > 2) break; opk = "ctor(init-list)"; d << opk << "(" << a << ")"; cur_op = d.str(); op(opk); softcfg().opk = opk; long i0 = next_id; next_id += 4; A.a.reset();
-				if constexpr(DD == 1) { Arr tmp = {mk(i0), mk(i0 + 1), mk(i0 + 2)}; A.a.emplace(std::move(tmp)); A.m.ext = {3}; A.m.ids = {i0, i0 + 1, i0 + 2}; }
-				else if constexpr(DD == 2) { Arr tmp = {{mk(i0), mk(i0 + 1)}, {mk(i0 + 2), mk(i0 + 3)}}; A.a.emplace(std::move(tmp)); A.m.ext = {2, 2}; A.m.ids = {i0, i0 + 1, i0 + 2, i0 + 3}; }
-				A.m.unspec = false; A.m.base_known = false; A.aid = 0; A.agen = 0; break; }
+				{ auto al = pick_alloc(g); bool const wa = g.chance(1, 2);  // also the allocator-extended form array({...}, alloc): the supplied allocator is the array's allocator and owns its block
+				if constexpr(DD == 1) { if(wa) { A.a.emplace(std::initializer_list<Elem>{mk(i0), mk(i0 + 1), mk(i0 + 2)}, al); } else { Arr tmp = {mk(i0), mk(i0 + 1), mk(i0 + 2)}; A.a.emplace(std::move(tmp)); } A.m.ext = {3}; A.m.ids = {i0, i0 + 1, i0 + 2}; }
+				else if constexpr(DD == 2) { if(wa) { A.a.emplace(std::initializer_list<typename Arr::value_type>{{mk(i0), mk(i0 + 1)}, {mk(i0 + 2), mk(i0 + 3)}}, al); } else { Arr tmp = {{mk(i0), mk(i0 + 1)}, {mk(i0 + 2), mk(i0 + 3)}}; A.a.emplace(std::move(tmp)); } A.m.ext = {2, 2}; A.m.ids = {i0, i0 + 1, i0 + 2, i0 + 3}; }
+				A.m.unspec = false; A.m.base_known = false; A.aid = wa ? al.id : 0; A.agen = 0; if(wa) { opk = "ctor(init-list,alloc)"; softcfg().opk = opk; } } break; }
 			case 23: { if(!B.a || D != 1) break; opk = "ctor(first,last)"; d << opk << "(" << a << "<-elems of " << b << ")"; cur_op = d.str(); op(opk); softcfg().opk = opk; if constexpr(DD == 1) { std::vector<Elem> src; for(long id : B.m.ids) src.push_back(mk(id)); if(B.m.unspec || src.empty()) break; A.a.reset(); A.a.emplace(src.begin(), src.end()); A.m = B.m; A.m.base_known = false; A.aid = 0; A.agen = 0; } break; }
 			case 26: { if(!A.a) break; Model vm; MV mv; int k = int(g.below(6)); if(!view_of(k, A.m, vm, mv) || A.m.unspec) break; static char const* VN2[] = {"transposed", "rotated", "sliced", "strided", "unrotated", "inner-transposed"};
 				opk = std::string("assign-from-own-view") + (A.m.ext == vm.ext ? "(same-extents)" : (A.m.n() == vm.n() ? "(same-count)" : "(other-extents)")); if(A.m.n() == vm.n()) break;  // an overlapping assignment that reuses the storage (same extents or same element count) is not in domain, see DESIGN.md
